@@ -130,9 +130,8 @@ fn c15p_lights_roundtrip() {
     assert!(a.light_type == b.light_type && a.use_attenuation == b.use_attenuation && coleq(&a.color, &b.color), "light type/flag/colour changed");
     assert!(veq(&a.position, &b.position) && a.intensity.to_bits() == b.intensity.to_bits() && a.attenuation_start.to_bits() == b.attenuation_start.to_bits()
         && a.attenuation_end.to_bits() == b.attenuation_end.to_bits(), "light position/intensity/attenuation changed");
-    let i: usize = kani::any();
-    kani::assume(i < 4);
-    assert!(a.rotation[i].to_bits() == b.rotation[i].to_bits(), "light rotation changed");
+    assert!(a.rotation[0].to_bits() == b.rotation[0].to_bits() && a.rotation[1].to_bits() == b.rotation[1].to_bits()
+        && a.rotation[2].to_bits() == b.rotation[2].to_bits() && a.rotation[3].to_bits() == b.rotation[3].to_bits(), "light rotation changed");
     std::mem::forget((r, root, map, p));
 }
 
@@ -159,10 +158,10 @@ fn c15p_portal_refs_roundtrip() {
     let p = p.unwrap();
     kani::cover!(p.len() == 2 && p[1].side == 1);
     assert!(p.len() == 2, "portal reference count changed in write -> parse");
-    let i: usize = kani::any();
-    kani::assume(i < 2);
-    let (a, b) = (&root.portal_references[i], &p[i]);
-    assert!(a.portal_index == b.portal_index && a.group_index == b.group_index && a.side == b.side, "portal reference changed in write -> parse");
+    let (a, b) = (&root.portal_references[0], &p[0]);
+    assert!(a.portal_index == b.portal_index && a.group_index == b.group_index && a.side == b.side, "portal reference 0 changed in write -> parse");
+    let (a, b) = (&root.portal_references[1], &p[1]);
+    assert!(a.portal_index == b.portal_index && a.group_index == b.group_index && a.side == b.side, "portal reference 1 changed in write -> parse");
     std::mem::forget((r, root, map, p));
 }
 
@@ -256,9 +255,8 @@ fn c15p_doodad_defs_roundtrip() {
     let (a, b) = (&root.doodad_defs[0], &p[0]);
     assert!(a.name_offset == b.name_offset, "doodad name offset changed in write -> parse");
     assert!(veq(&a.position, &b.position) && a.scale.to_bits() == b.scale.to_bits() && coleq(&a.color, &b.color), "doodad position/scale/colour changed");
-    let i: usize = kani::any();
-    kani::assume(i < 4);
-    assert!(a.orientation[i].to_bits() == b.orientation[i].to_bits(), "doodad orientation changed");
+    assert!(a.orientation[0].to_bits() == b.orientation[0].to_bits() && a.orientation[1].to_bits() == b.orientation[1].to_bits()
+        && a.orientation[2].to_bits() == b.orientation[2].to_bits() && a.orientation[3].to_bits() == b.orientation[3].to_bits(), "doodad orientation changed");
     std::mem::forget((r, root, map, p));
 }
 /// witness of known finding doodad-nameoff
